@@ -40,6 +40,31 @@ let dispatch (t : string list) : string =
        | None -> "LEXFAIL"
        | Some ts -> String.concat " " (List.map show_etok ts) ^ " .")
   | ["idprep"; b; h] -> hex_of_str (iden_prepare (quote_char (backend_of b)) (str_of_hex h))
+  | ["lit"; b; pos; "v"; payload] ->
+      (* any Value at a value position: payload = <hex of value term>:<hex of model encoding> *)
+      (match String.split_on_char ':' payload with
+       | [_; enc] ->
+           res_str (lit_render_value Cases.ftext (backend_of b) (lpos_of pos)
+                      (Cases.value_of_enc (Sexp.parse (unhex enc))))
+       | _ -> failwith "lit v payload")
+  | ["declit"; b; pos; ("as" | "ay" as kind); stmt] ->
+      (* array of string / char literals (as) or of byte-string literals (ay) at a value position *)
+      let b = backend_of b in
+      (match lit_template b (lpos_of pos) with
+       | None -> "NO-TEMPLATE"
+       | Some ((pre, _), suf) ->
+           let stmt = str_of_hex stmt in
+           let suf = array_close @ suf in
+           if kind = "ay" then
+             (match decode_bytes_array_at b pre stmt with
+              | None -> "NOT-A-LITERAL"
+              | Some (bss, rest) ->
+                  Printf.sprintf "%s %s %s" (String.concat "." (List.map hex_of_bytes bss)) (hex_of_str rest) (hex_of_str suf))
+           else
+             (match decode_string_array_at b pre stmt with
+              | None -> "NOT-A-LITERAL"
+              | Some (ss, rest) ->
+                  Printf.sprintf "%s %s %s" (String.concat "." (List.map hex_of_str ss)) (hex_of_str rest) (hex_of_str suf)))
   | ["lit"; b; pos; kind; payload] ->
       res_str (lit_render (backend_of b) (lpos_of pos) (lkinds_of kind payload))
   | ["declit"; b; pos; kind; stmt] ->
